@@ -32,6 +32,7 @@ type Engine struct {
 	cfg     Config
 	natives map[string]NativeFn
 	subst   map[string]*ssa.Function
+	groupSubst map[string]map[string]*ssa.Function
 	fninfo  map[*ssa.Function]*FnInfo
 	allow   func(pkgPath string) bool // packages whose init we execute
 	modelsPkg *ssa.Package
@@ -369,6 +370,24 @@ func (e *Engine) RunHarness(fn *ssa.Function, base *State) *HarnessResult {
 	st := base.clone(0)
 	st.epoch = newEpoch()
 	e.nextState = 1
+	// model globals: maps are created eagerly and the package initialiser is not run (it would
+	// depend on pat-go initialisers that in turn call into the models)
+	if e.modelsPkg != nil {
+		st.inited[e.modelsPkg] = true
+		for _, m := range e.modelsPkg.Members {
+			g, ok := m.(*ssa.Global)
+			if !ok {
+				continue
+			}
+			et := g.Type().(*types.Pointer).Elem()
+			p := st.allocFor(et)
+			st.globals[g] = p.Obj
+			if mt, ok := et.Underlying().(*types.Map); ok {
+				id := st.newObj(&Obj{Kind: OMap, KeyT: mt.Key(), ValT: mt.Elem()})
+				st.store(p, MapV{id})
+			}
+		}
+	}
 	e.pushFrame(st, fn, nil, nil)
 	e.work = []*State{st}
 	for len(e.work) > 0 {
@@ -475,6 +494,7 @@ func (e *Engine) fork(st *State, c *Term) bool {
 	}
 	switch {
 	case r1 != Unsat && r2 != Unsat:
+		forkSites[posOf(st, e)]++
 		st2 := st.clone(e.nextState)
 		e.nextState++
 		st.epoch = newEpoch()
@@ -706,6 +726,7 @@ func condKey(c *Term) int {
 }
 
 var lastProgress = time.Now()
+var forkSites = map[string]int{}
 
 func unwindSignalFor(st *State, e *Engine) interface{} {
 	return killSignal{"UNWIND " + posOf(st, e)}
@@ -848,6 +869,12 @@ func (e *Engine) invokeValue(st *State, fnv Value, args []Value, ci ssa.CallInst
 	if m, ok := e.subst[name]; ok {
 		e.stubs[name] = true
 		fn = m
+	}
+	for g := range st.groups {
+		if m, ok := e.groupSubst[g][name]; ok {
+			e.stubs[name] = true
+			fn = m
+		}
 	}
 	if fn.Blocks == nil {
 		if fn.Synthetic != "" && strings.Contains(fn.Synthetic, "wrapper") {
